@@ -236,6 +236,66 @@ def histServe (cur : HGen) : List (Sum HGen HReq) → List Outcome
   | .inl g :: rest => histServe g rest
   | .inr q :: rest => serve cur q :: histServe cur rest
 
+/-! ### The handler behind a route is resolved per request (`muxInstance.serveHTTP`)
+
+The HTTPServer is not reloaded when a Pipeline is created, updated or deleted: what changes is the
+answer of the mux mapper (`mi.muxMapper.GetHandler(backend)` → the traffic controller's namespace).
+`serveHTTP` asks the mapper on every request, after the route (cached or not) is known. `HMap` is
+what the mapper currently answers; `set` / `del` change it without a reload. `pin` is the contrast
+semantics (seeded change C11-m6): the handler is remembered next to the cached route. -/
+
+/-- backend name ↦ tag of the handler (pipeline generation) the mapper returns. -/
+abbrev HMap := List (String × String)
+
+def hmapOf (m : Mapper) : HMap := m.backends.map fun b => (b, m.tag ++ ":" ++ b)
+def hmapDel (h : HMap) (n : String) : HMap := h.filter fun p => p.1 != n
+def hmapSet (h : HMap) (n t : String) : HMap := (n, t) :: hmapDel h n
+
+inductive MOp where
+  | reload (g : HGen)
+  | req (q : HReq)
+  | set (name tag : String)
+  | del (name : String)
+
+/-- The outcome of one request given the routing part, the mapper's current answers and the options. -/
+def serveMap (rules : Rules) (h : HMap) (opt : Options) (q : HReq) : Outcome :=
+  match Mux.search rules.oracle rules.cfg q.q with
+  | .code c => { status := c, handler := "", path := "", xff := "" }
+  | .path _ _ e =>
+    match h.lookup e.backend with
+    | some t => { status := 200, handler := t, path := rewrite e q.q.path,
+                  xff := if opt.xForwardedFor then appendXFF q.xffIn q.q.ip q.xffContains else q.xffIn }
+    | none => { status := 503, handler := "", path := "", xff := "" }
+
+/-- Specification: every request is served by the handler mapped AT THAT TIME (503 if none). -/
+def mapServe (cur : HGen) (h : HMap) : List MOp → List Outcome
+  | [] => []
+  | .reload g :: rest => mapServe g (hmapOf g.mapper) rest
+  | .set n t :: rest => mapServe cur (hmapSet h n t) rest
+  | .del n :: rest => mapServe cur (hmapDel h n) rest
+  | .req q :: rest => serveMap cur.rules h cur.options q :: mapServe cur h rest
+
+/-- Implementation-shaped semantics with a per-instance memo keyed by the request (`pins`): with
+`pin = false` (the code) the memo is never consulted for the handler; with `pin = true` (C11-m6) a
+handler found once for a key is reused until the next reload. (Routes themselves may be cached:
+C12's `cache_transparent`.) -/
+def mapServeImpl (pin : Bool) (cur : HGen) (h : HMap) (pins : List (Mux.Req × String)) : List MOp → List Outcome
+  | [] => []
+  | .reload g :: rest => mapServeImpl pin g (hmapOf g.mapper) [] rest
+  | .set n t :: rest => mapServeImpl pin cur (hmapSet h n t) pins rest
+  | .del n :: rest => mapServeImpl pin cur (hmapDel h n) pins rest
+  | .req q :: rest =>
+    match (if pin then pins.lookup q.q else none) with
+    | some t =>
+      -- the remembered handler is used whatever the mapper answers now
+      (match Mux.search cur.rules.oracle cur.rules.cfg q.q with
+        | .path _ _ e => serveMap cur.rules [(e.backend, t)] cur.options q
+        | .code _ => serveMap cur.rules h cur.options q) :: mapServeImpl pin cur h pins rest
+    | none =>
+      let o := serveMap cur.rules h cur.options q
+      let pins' := if pin && o.status == 200 then (q.q, o.handler) :: pins else pins
+      o :: mapServeImpl pin cur h pins' rest
+
 /-! ## Part 2 — registry -/
 
 /-- `*supervisor.ObjectEntity`: spec (content identity: `Spec.Equals` is `DeepEqual` of the raw
